@@ -152,9 +152,10 @@ func H_unserialize_prefixed() {
 // ints from a boundary pool and lists of two such.
 func H_serialize_roundtrip() {
 	n := symx.Param("n", 2)
-	kind := symx.Choose("kind", 5)
+	kind := symx.Choose("kind", 8)
 	var v data.Value
 	s := symx.String("s", n)
+	s2 := symx.String("t", n)
 	b := symx.Bool("b")
 	iv := []int{0, 1, -1, 42, 9223372036854775807, -9223372036854775808}[symx.Choose("i", 6)]
 	switch kind {
@@ -168,6 +169,13 @@ func H_serialize_roundtrip() {
 		v = data.NewIntValue(iv)
 	case 4:
 		v = data.NewArrayValue([]data.Value{data.NewIntValue(iv), data.NewStringValue(s)})
+	case 5:
+		// two strings: the first one is FOLLOWED by more input (its end must come from its length)
+		v = data.NewArrayValue([]data.Value{data.NewStringValue(s), data.NewStringValue(s2)})
+	case 6:
+		v = data.NewArrayValue([]data.Value{data.NewArrayValue([]data.Value{data.NewStringValue(s)}), data.NewStringValue(s2), data.NewIntValue(iv)})
+	case 7:
+		v = data.NewArrayValue([]data.Value{data.NewStringValue(s), data.NewBoolValue(b), data.NewNullValue(), data.NewStringValue(s2)})
 	}
 	e, ok := call1(php.NewSerializeFunction(), v)
 	es, ok2 := str(e)
@@ -200,6 +208,37 @@ func H_serialize_roundtrip() {
 			x, isI := arr.List[0].Value.(*data.IntValue)
 			ds, isS := str(arr.List[1].Value)
 			symx.Assert(isI && x.Value == iv && isS && ds == s, "list round trip (elements)")
+		}
+	case 5:
+		arr, isA := d.(*data.ArrayValue)
+		symx.Assert(isA && len(arr.List) == 2, "list of two strings round trip (length)")
+		if isA && len(arr.List) == 2 {
+			d0, ok0 := str(arr.List[0].Value)
+			d1, ok1 := str(arr.List[1].Value)
+			symx.Assert(ok0 && ok1 && d0 == s && d1 == s2, "list of two strings round trip (elements)")
+		}
+	case 6:
+		arr, isA := d.(*data.ArrayValue)
+		symx.Assert(isA && len(arr.List) == 3, "nested list round trip (length)")
+		if isA && len(arr.List) == 3 {
+			in, isIn := arr.List[0].Value.(*data.ArrayValue)
+			d1, ok1 := str(arr.List[1].Value)
+			x, isI := arr.List[2].Value.(*data.IntValue)
+			symx.Assert(isIn && len(in.List) == 1 && ok1 && d1 == s2 && isI && x.Value == iv, "nested list round trip (elements)")
+			if isIn && len(in.List) == 1 {
+				d0, ok0 := str(in.List[0].Value)
+				symx.Assert(ok0 && d0 == s, "nested list round trip (inner string)")
+			}
+		}
+	case 7:
+		arr, isA := d.(*data.ArrayValue)
+		symx.Assert(isA && len(arr.List) == 4, "mixed list round trip (length)")
+		if isA && len(arr.List) == 4 {
+			d0, ok0 := str(arr.List[0].Value)
+			bv, isB := arr.List[1].Value.(*data.BoolValue)
+			_, isN := arr.List[2].Value.(*data.NullValue)
+			d3, ok3 := str(arr.List[3].Value)
+			symx.Assert(ok0 && d0 == s && isB && bv.Value == b && isN && ok3 && d3 == s2, "mixed list round trip (elements)")
 		}
 	}
 	symx.Reach("end")
